@@ -149,8 +149,32 @@ func TestVfC07CacheKey(t *testing.T) {
 		class := vfkit.GenClass(t)
 		mark := rapid.SampledFrom([]string{"", "cn", "us", "office"}).Draw(t, "mark")
 		n2, typ2, class2, mark2 := n1, typ, class, mark
-		diff := rapid.SampledFrom([]string{"none", "name", "name-bit5", "type", "class", "mark"}).Draw(t, "differIn")
+		diff := rapid.SampledFrom([]string{"none", "name", "name-bit5", "type", "class", "mark", "re-split"}).Draw(t, "differIn")
 		switch diff {
+		case "re-split":
+			// The same octets cut differently: the last label of the name, the class, the type and the mark of the first
+			// query, read as class + type + (longer) mark of a second query for the shorter name. The four components are
+			// of variable total length, so a key that merely concatenates them cannot tell the two apart. (Class and type
+			// of the first query are two printable letters each, so that the second mark is something a marker file can
+			// carry; class and type of the second are whatever the label's octets spell - any value is a legal class / type.)
+			if len(n1) == 0 {
+				n1 = vfkit.Name{[]byte("x")}
+			}
+			letters := rapid.SliceOfN(rapid.ByteRange('a', 'z'), 4, 4).Draw(t, "classTypeLetters")
+			class, typ = uint16(letters[0])<<8|uint16(letters[1]), uint16(letters[2])<<8|uint16(letters[3])
+			last := n1[len(n1)-1]
+			rest := append(append([]byte{byte(len(last))}, last...), letters...)
+			rest = append(rest, mark...)
+			n2 = n1[:len(n1)-1]
+			class2, typ2 = uint16(rest[0])<<8|uint16(rest[1]), uint16(rest[2])<<8|uint16(rest[3])
+			mark2 = string(rest[4:])
+			for _, c := range []byte(mark2) {
+				if c < 0x21 || c > 0x7e || c == '#' || c == ',' {
+					// the label had octets no marker-file label can carry: fall back to the plain "other mark" pair
+					n2, class2, typ2, mark2, diff = n1, class, typ, mark+"x", "mark"
+					break
+				}
+			}
 		case "name":
 			n2 = vfkit.GenNameFrom(t, p, 4).Lower()
 			if n2.Equal(n1) {
